@@ -19,6 +19,7 @@ TReset ==
     /\ Is("reset") /\ cur = 0 /\ P_Reset
     /\ registry' = <<>> /\ chan' = <<>> /\ one' = <<>> /\ held' = {}
     /\ pc' = [s \in Srcs |-> "idle"] /\ cur' = 0
+    /\ guard' = [s \in Srcs |-> NoGuard]
     /\ last' = [ev |-> "init"]
 
 TNext ==
@@ -27,10 +28,13 @@ TNext ==
     \/ Is("drop_barrier") /\ DropBarrier(E.b)
     \/ Is("wait") /\ Wait(E.b) /\ last'.res = E.res
     \/ Is("drop_handle") /\ DropHandle(E.t)
-    \/ Is("trig") /\ (IF E.sync THEN TriggerNoop(E.src, E.v) ELSE Trigger(E.src, E.v)) /\ last'.t = E.t
+    \/ Is("trig")
+                  /\ IF E.unwind THEN UnwindTrigger(E.src) /\ guard[E.src] = E.v
+                     ELSE IF E.sync THEN TriggerNoop(E.src, E.v, E.g) ELSE Trigger(E.src, E.v, E.g)
+                  /\ last'.t = E.t
     \/ Is("poll") /\ Poll(E.src)
-    \/ Is("ret") /\ Return(E.src) /\ last'.t = E.t /\ last'.prog = E.prog
-    \/ Is("panicked") /\ Panicked(E.src) /\ last'.t = E.t
+    \/ Is("ret") /\ (Return(E.src) \/ UnwindReturn(E.src)) /\ last'.t = E.t /\ last'.prog = E.prog
+    \/ Is("panicked") /\ (Panicked(E.src) \/ UnwindPanicked(E.src)) /\ last'.t = E.t
     \/ Is("poll_end") /\ PollEnd(E.src) /\ last'.prog = E.prog
 
 TSpec == TInit /\ [][TNext]_<<vars, l>>
